@@ -37,6 +37,8 @@ int connOrdinalOfFd(int fd);
 const std::string& captured(int connOrdinal, int dir);
 void enableCapture(bool on);
 bool fdOpen(int fd);
+int openFdCount();            // simulated descriptors currently open (listeners, connections, pending)
+int openConnCount();          // ... connected endpoints only
 
 } // namespace net
 } // namespace sim
